@@ -195,8 +195,9 @@ def check_case(case) -> Result:
             # whole-number pseudopressures held in an integer column (scaled so that rounding keeps them increasing)
             col = t["pseudopressure"]
             scale = 1e6 / max(float(np.min(np.diff(col))), 1e-300) if float(np.min(np.diff(col))) < 1e3 else 1.0
-            t["pseudopressure"] = np.rint(col * scale).astype(np.int64)
-            res.labels["pseudopressure_dtype"] = "int64"
+            if float(np.max(np.abs(col))) * scale < 4e18:  # representable in int64 (other units of viscosity / pressure)
+                t["pseudopressure"] = np.rint(col * scale).astype(np.int64)
+                res.labels["pseudopressure_dtype"] = "int64"
         if case["extra_column"]:
             for k in ("compressibility", "viscosity", "z-factor"):
                 t[k] = tab[k]
